@@ -14,9 +14,15 @@
 // only have raised it). A peer-opened stream must never be given the window of a locally opened one.
 // The values are observed on the stream objects stored in the tables (c11s_peek_*.rs).
 //
-// Part 1b — `DataStreams::try_load_data_into_once` on a table with one stream whose sender is
-// symbolic (c11s_sender.rs): the connection-level credit charged (observed on the real
-// ArcSendControler) equals the number of NEVER-SENT bytes in the emitted STREAM frame.
+// How (after many measurements, see the comments at each stub): the stream-creation functions are
+// the REAL ones; what is cut away is bookkeeping around them that CBMC cannot get through when it
+// lives in Arc<Mutex<Result<..>>> on the heap (table inserts, stream-id counters, parameter-map
+// lookups — the latter answered from the same values keyed by the ParameterId that is ASKED for).
+// The stream objects are observed on the Reader / Writer the real function returns, so a native
+// replay (no stubs) observes the same values. The table walk of revise_params runs on a real
+// BTreeMap table inside a stack-resident Mutex.
+// (The charge — part 1 — is in c11s_sender.rs: Outgoing::try_load_data_into and
+// DataStreams::try_load_data_into_once do not finish symbolic execution.)
 use core::task::{Context, Poll};
 
 use qbase::{
